@@ -419,9 +419,9 @@ def transport_write_returns_count(ctx, R, cls, rule="RET-transport"):
         R.fail(rule, m.qualname + "|" + sub, "return value `%s` is not the byte count of the write" % src(v), m.loc(rn.ast))
 
 
-def check(ctx, R):
+def write_sites_rules(ctx, R):
+    """Every transport write site: the write-all shape, and no handler that swallows a failed write and goes on."""
     sites = transport_write_sites(ctx)
-    R.count("RET", len(sites), 2)
     for f, n, c in sites:
         ok, why, info = writeall_shape(ctx, f, n, c)
         R.check(ok, "RET", "%s|%s" % (f.qualname, norm_stmt(n.ast)), why, why, f.loc(n.ast))
@@ -436,6 +436,12 @@ def check(ctx, R):
                 if hn and handler_completes(g, hn[0]):
                     R.fail("RET-retry", "%s|%s" % (f.qualname, norm_stmt(h.type) if h.type is not None else "bare"),
                            "an exception of the transport write is swallowed (`except %s`) and the write loop goes on: data a transport already buffered before failing is sent again, or a failed write is ignored - the message no longer arrives exactly once, in order" % (norm_stmt(h.type) if h.type is not None else ""), f.loc(h))
+    return sites
+
+
+def check(ctx, R):
+    sites = write_sites_rules(ctx, R)
+    R.count("RET", len(sites), 2)
     # the write-all function must receive whole buffers: its callers pass their buffer unchanged (checked in C02);
     # here: the buffer parameter of the write-all function is not modified before the loop
     pkg = ctx.pkg
